@@ -1,4 +1,5 @@
 import HyperModel.Proofs.Fetcher
+import HyperModel.Proofs.BlockFetch
 /-! # C24 Block execution reads exactly the declared keys from parent state
 
 Theorems over every reachable state of the fetcher model (`Model/Fetcher.lean`: any interleaving of
@@ -76,6 +77,18 @@ theorem fetch_queue (s : St) (tx : TxId) (ks : List Key) : (fetch s tx ks).1.que
       | nil => intro s0; rfl
       | cons k ks ih => intro s0; simp only [List.foldl_cons]; rw [ih, fetchKey_queue]
     exact this ks (newRec s)
+
+theorem fetch_ok_or_same (s : St) (tx : TxId) (ks : List Key) :
+    (fetch s tx ks).1 = s ∨
+    ((fetch s tx ks).1.requested = s.requested ∧ (fetch s tx ks).1.inflight = s.inflight ∧
+     (fetch s tx ks).1.err = s.err) := by
+  by_cases he : s.err.isSome
+  · left; simp [fetch, he]
+  · right
+    unfold fetch
+    simp only [he]
+    have := foldl_fetchKey_txs s.nrecs ks (newRec s)
+    exact ⟨this.2.2.1, this.2.2.2.1, this.2.2.2.2⟩
 
 theorem fetch_queue_of_err (s : St) (tx : TxId) (ks : List Key) (he : s.err.isSome) :
     (fetch s tx ks).1 = s := by
@@ -524,33 +537,248 @@ theorem send_step_decreases {s s' : St} (hs : send s = some s' ∨ abort s = som
       simpa using this
     · cases hs
 
-/-- **Block level (partial).** `Processor.Execute` reads the parent state in exactly two places:
-`createBlockContext` (height, timestamp, fee key, once each) and the fetcher. The keys read from
-the parent while executing a block are therefore the three chain metadata keys followed by the
-fetcher's reads: pairwise distinct and all in `declared ∪ metadata`, provided no transaction
-declares a metadata key (C39/C40 keep the prefixes apart).
-PARTIAL: the clause "each transaction observes the parent's value for a declared key not changed
-earlier in the block" composes `get_returns_parent_values` with the tstate view / executor order
-(properties C04, C01, C08) and is not proved here; it is checked on the real `Processor.Execute`
-by the block-level tie (`tx-observes-wrong-value`). -/
-theorem block_parent_reads_partial {parent : Key → Rd} {c cap : Nat} {s : St} (h : Reach parent c cap s)
-    (mkeys : List Key) (hm : mkeys.Nodup) (hdisj : ∀ k ∈ mkeys, ¬ Declared s k) :
-    (mkeys ++ s.requested).Nodup ∧ ∀ k ∈ mkeys ++ s.requested, k ∈ mkeys ∨ Declared s k := by
-  obtain ⟨h1, h2, _⟩ := requested_keys_eq_declared_union h
-  refine ⟨List.nodup_append.2 ⟨hm, h1, ?_⟩, ?_⟩
-  · intro a ha b hb hab
-    subst hab
-    exact hdisj a ha (h2 a hb)
-  · intro k hk
-    rcases List.mem_append.1 hk with hk | hk
-    · exact Or.inl hk
-    · exact Or.inr (h2 k hk)
-
 /-- `Keys.WithoutPermissions` (repaired) returns exactly the declared keys: no empty key. -/
 theorem withoutPermissions_exact (ks : List (Key × Nat)) (k : Key) :
     k ∈ withoutPermissions ks ↔ ∃ p, (k, p) ∈ ks := by
   unfold withoutPermissions
   simp [List.mem_eraseDups]
+
+/-! ## Block level: `Processor.Execute` over the fetcher (`Model/BlockFetch.lean`) -/
+
+theorem fetchKey_cached (r : Nat) (s : St) (k k' : Key) (d : Option Val)
+    (h : s.cache k' = some (some d)) : (fetchKey r s k).cache k' = some (some d) := by
+  unfold fetchKey
+  split
+  next hc =>
+    show upd s.cache k (some none) k' = _
+    have : k' ≠ k := by rintro rfl; rw [hc] at h; cases h
+    simp [upd, this, h]
+  · exact h
+  · exact h
+
+theorem fetch_cached (s : St) (tx : TxId) (ks : List Key) (k' : Key) (d : Option Val)
+    (h : s.cache k' = some (some d)) : (fetch s tx ks).1.cache k' = some (some d) := by
+  unfold fetch
+  split
+  · exact h
+  · have : ∀ (ks : List Key) (s0 : St), s0.cache k' = some (some d) →
+        (ks.foldl (fetchKey s.nrecs) s0).cache k' = some (some d) := by
+      intro ks
+      induction ks with
+      | nil => intro s0 h0; exact h0
+      | cons k ks ih => intro s0 h0; exact ih _ (fetchKey_cached _ _ _ _ _ h0)
+    exact this ks (newRec s) h
+
+/-- every key already requested from the parent is still in flight, or cached, or the fetcher has
+an error -/
+def InvR (s : St) : Prop :=
+  ∀ k ∈ s.requested, k ∈ s.inflight ∨ (∃ d, s.cache k = some (some d)) ∨ s.err.isSome
+
+theorem invR_reach {parent : Key → Rd} {c cap : Nat} {s : St} (h : Reach parent c cap s) : InvR s := by
+  induction h with
+  | init => intro k hk; simp [init] at hk
+  | step s s' hs st ih =>
+    have i2 := inv2_reach hs
+    match st with
+    | .fetch _ tx ks _ _ =>
+      intro k hk
+      have fr := (fetch_ok_or_same s tx ks)
+      rcases fr with fr | ⟨f1, f2, f3⟩
+      · rw [fr] at hk ⊢; exact ih k hk
+      · rw [f1] at hk
+        rcases ih k hk with h1 | ⟨d, h1⟩ | h1
+        · exact Or.inl (by rw [f2]; exact h1)
+        · exact Or.inr (Or.inl ⟨d, fetch_cached _ _ _ _ _ h1⟩)
+        · exact Or.inr (Or.inr (by rw [f3]; exact h1))
+    | .send _ _ hsd =>
+      unfold send at hsd; split at hsd
+      · cases hsd
+      · split at hsd <;> cases hsd; exact ih
+    | .abort _ _ hsd => unfold abort at hsd; split at hsd <;> cases hsd; exact ih
+    | .take _ _ ht =>
+      unfold take at ht; split at ht
+      · cases ht
+      next k0 q hq =>
+        split at ht <;> cases ht
+        intro k hk
+        simp only [List.mem_append, List.mem_singleton] at hk ⊢
+        rcases hk with hk | rfl
+        · rcases ih k hk with h1 | h1 | h1
+          · exact Or.inl (Or.inl h1)
+          · exact Or.inr (Or.inl h1)
+          · exact Or.inr (Or.inr h1)
+        · exact Or.inl (Or.inr rfl)
+    | .complete _ k0 _ hc =>
+      have herrOrSet : (s'.requested = s.requested) ∧
+          ((∃ d, s' = setKey { s with inflight := s.inflight.erase k0 } k0 d) ∨ s'.err.isSome) := by
+        have hc' := hc
+        unfold complete at hc'
+        split at hc'
+        next hin =>
+          split at hc' <;> cases hc'
+          · exact ⟨rfl, Or.inl ⟨_, rfl⟩⟩
+          · exact ⟨rfl, Or.inl ⟨_, rfl⟩⟩
+          · refine ⟨(handleErr_recs _ _).2.2.2.1, Or.inr ?_⟩
+            exact (error_fails_not_hangs hs k0 (Or.inl ‹_›) hc).1
+          · refine ⟨(handleErr_recs _ _).2.2.2.1, Or.inr ?_⟩
+            exact (error_fails_not_hangs hs k0 (Or.inr ‹_›) hc).1
+        · cases hc'
+      obtain ⟨hreq, hcase⟩ := herrOrSet
+      intro k hk
+      rw [hreq] at hk
+      rcases hcase with ⟨d, rfl⟩ | herr
+      · by_cases e : k = k0
+        · subst e
+          exact Or.inr (Or.inl ⟨d, by simp [setKey, upd]⟩)
+        · rcases ih k hk with h1 | ⟨d', h1⟩ | h1
+          · exact Or.inl (by simp only [setKey]; exact (List.mem_erase_of_ne e).2 h1)
+          · exact Or.inr (Or.inl ⟨d', by simp [setKey, upd, e, h1]⟩)
+          · exact Or.inr (Or.inr (by simpa [setKey] using h1))
+      · exact Or.inr (Or.inr herr)
+    | .exit _ _ hx => unfold exit at hx; split at hx <;> cases hx; exact ih
+    | .stop _ =>
+      have f := handleErr_recs s .stopped
+      intro k hk
+      have hk' : k ∈ s.requested := by
+        have : (stop s).requested = s.requested := f.2.2.2.1
+        rw [this] at hk; exact hk
+      rcases ih k hk' with h1 | ⟨d, h1⟩ | h1
+      · exact Or.inl (by show k ∈ (handleErr s .stopped).inflight; rw [f.2.2.2.2.1]; exact h1)
+      · exact Or.inr (Or.inl ⟨d, by show (handleErr s .stopped).cache k = _; rw [f.2.2.2.2.2]; exact h1⟩)
+      · refine Or.inr (Or.inr ?_)
+        have := error_sticky hs (.stop s) h1
+        rw [this]; exact h1
+    | .waitCall _ _ => exact ih
+    | .waitRet _ _ e hw => unfold waitRet at hw; split at hw <;> cases hw; exact ih
+
+/-- (a), any moment: every key read from the parent while a block executes is a chain metadata
+key or a key declared by one of the block's transactions, and no key is read twice.
+`hmeta`: no transaction declares a metadata key (prefix separation, C39/C40). -/
+theorem block_reads_within_declared_union_meta {parent : Key → Rd} {blk : Block} {c cap : Nat}
+    {b : BState}
+    (hid : ∀ t1 ∈ blk.txs, ∀ t2 ∈ blk.txs, t1.id = t2.id → t1.fetchKeys = t2.fetchKeys)
+    (hnd : blk.mkeys.Nodup) (hmeta : ∀ k ∈ blk.mkeys, ∀ tx ∈ blk.txs, k ∉ tx.fetchKeys)
+    (h : BReach parent blk c cap b) :
+    b.parentReads.Nodup ∧
+    ∀ k ∈ b.parentReads, k ∈ blk.mkeys ∨ ∃ tx ∈ blk.txs, ∃ p, (k, p) ∈ tx.keys := by
+  have bi := binv_reach hid h
+  have hr := breach_reach h
+  obtain ⟨h1, h2, _⟩ := requested_keys_eq_declared_union hr
+  obtain ⟨n, hn⟩ := bi.pre
+  have hsub : ∀ k ∈ b.metaRead, k ∈ blk.mkeys := by
+    intro k hk; rw [hn] at hk; exact List.mem_of_mem_take hk
+  have hdecl : ∀ k ∈ b.f.requested, ∃ tx ∈ blk.txs, k ∈ tx.fetchKeys := by
+    intro k hk
+    obtain ⟨tx, ht, hkt⟩ := (bi.decl k).1 (h2 k hk)
+    exact ⟨tx, List.mem_of_mem_take ht, hkt⟩
+  unfold BState.parentReads
+  refine ⟨List.nodup_append.2 ⟨?_, h1, ?_⟩, ?_⟩
+  · rw [hn]; exact (List.take_sublist n blk.mkeys).nodup hnd
+  · intro a ha b' hb hab
+    subst hab
+    obtain ⟨tx, ht, hkt⟩ := hdecl a hb
+    exact hmeta a (hsub a ha) tx ht hkt
+  · intro k hk
+    rcases List.mem_append.1 hk with hk | hk
+    · exact Or.inl (hsub k hk)
+    · obtain ⟨tx, ht, hkt⟩ := hdecl k hk
+      exact Or.inr ⟨tx, ht, (withoutPermissions_exact tx.keys k).1 hkt⟩
+
+/-- **(a) Reads = declared ∪ metadata.** When block execution got through (`Wait` returned nil,
+no error returned), the keys read from the parent state are *exactly* the three chain metadata
+keys and the keys declared by the block's transactions, each read exactly once. -/
+theorem block_reads_eq_declared_union_meta {parent : Key → Rd} {blk : Block} {c cap : Nat}
+    {b : BState}
+    (hid : ∀ t1 ∈ blk.txs, ∀ t2 ∈ blk.txs, t1.id = t2.id → t1.fetchKeys = t2.fetchKeys)
+    (hnd : blk.mkeys.Nodup) (hmeta : ∀ k ∈ blk.mkeys, ∀ tx ∈ blk.txs, k ∉ tx.fetchKeys)
+    (hc : 0 < c) (h : BReach parent blk c cap b) (hs : Succeeded b) :
+    b.parentReads.Nodup ∧
+    ∀ k, k ∈ b.parentReads ↔ (k ∈ blk.mkeys ∨ ∃ tx ∈ blk.txs, ∃ p, (k, p) ∈ tx.keys) := by
+  obtain ⟨hnodup, hsub⟩ := block_reads_within_declared_union_meta hid hnd hmeta h
+  refine ⟨hnodup, fun k => ⟨hsub k, ?_⟩⟩
+  have bi := binv_reach hid h
+  have hr := breach_reach h
+  obtain ⟨_, s', hw⟩ := hs
+  have hcl : b.f.tasksClosed = true := by
+    unfold waitRet at hw; split at hw
+    next hcond => exact hcond.2
+    · cases hw
+  obtain ⟨hm, hf⟩ := bi.closed hcl
+  have hall := wait_ok_reads_exactly_declared hr hc hw
+  unfold BState.parentReads
+  rintro (hk | ⟨tx, ht, p, hp⟩)
+  · exact List.mem_append.2 (Or.inl (by rw [hm]; exact hk))
+  · refine List.mem_append.2 (Or.inr ((hall k).1 ((bi.decl k).2 ⟨tx, ?_, ?_⟩)))
+    · rw [hf, List.take_length]; exact ht
+    · exact (withoutPermissions_exact tx.keys k).2 ⟨p, hp⟩
+
+/-- **(b) What a transaction observes.** Whenever `Get` hands a storage map to a transaction of
+the block whose `Fetch` was issued, the map was built from that transaction's declared keys, and
+through its view (layering assumption `visible`: block-level change if an earlier transaction
+changed the key, else the storage map — C04 `view_refines`) the transaction sees, for every
+declared key *not changed earlier in the block*, exactly the parent's value, or absence if the
+parent has none; for a key changed earlier it sees that change. A key whose parent read failed
+never shows up as absent: `parent k = rdOf d` excludes failed reads. -/
+theorem tx_observes_parent_unless_changed {parent : Key → Rd} {blk : Block} {c cap : Nat}
+    {b : BState}
+    (hid : ∀ t1 ∈ blk.txs, ∀ t2 ∈ blk.txs, t1.id = t2.id → t1.fetchKeys = t2.fetchKeys)
+    (h : BReach parent blk c cap b) (tx : BTx) (htx : tx ∈ blk.txs.take b.fetched)
+    (r : Nat) (hg : GetRes.vals r ∈ getOutcomes b.f tx.id)
+    (diff : Key → Option (Option Val)) :
+    ∃ rc, b.f.recs r = some rc ∧ rc.keys = tx.fetchKeys ∧
+      ∀ k, (∃ p, (k, p) ∈ tx.keys) →
+        (diff k = none → ∃ d, parent k = rdOf d ∧ visible diff (storage b.f rc.keys) k = d) ∧
+        (∀ x, diff k = some x → visible diff (storage b.f rc.keys) k = x) := by
+  have bi := binv_reach hid h
+  have hr := breach_reach h
+  obtain ⟨rc, h1, h2, h3⟩ := get_returns_parent_values hr tx.id r hg
+  obtain ⟨r', rc', g1, g2, g3⟩ := bi.recsOk tx htx
+  rw [h1] at g1; cases g1
+  rw [h2] at g2; cases g2
+  refine ⟨rc, h2, g3, ?_⟩
+  intro k hk
+  have hkm : k ∈ rc.keys := by rw [g3]; exact (withoutPermissions_exact tx.keys k).2 hk
+  constructor
+  · intro hd
+    obtain ⟨d, e1, e2⟩ := h3 k hkm
+    exact ⟨d, e1, by simp [visible, hd, e2]⟩
+  · intro x hd; simp [visible, hd]
+
+/-- **(c) A failing read fails the block.** If block execution got through, then every metadata
+key was found with a value and the parent read of every key declared by any transaction of the
+block succeeded (value or genuine absence). Contrapositive: an injected read error (or a value
+with too many chunks) on a metadata or declared key makes `Execute` return an error — by
+`wait_no_deadlock` / `fetch_send_never_stuck` it does return — and by (b) no transaction ever
+observed that key as absent. -/
+theorem block_read_error_fails {parent : Key → Rd} {blk : Block} {c cap : Nat} {b : BState}
+    (hid : ∀ t1 ∈ blk.txs, ∀ t2 ∈ blk.txs, t1.id = t2.id → t1.fetchKeys = t2.fetchKeys)
+    (hc : 0 < c) (h : BReach parent blk c cap b) (hs : Succeeded b) :
+    (∀ k ∈ blk.mkeys, ∃ v, parent k = .val v) ∧
+    ∀ tx ∈ blk.txs, ∀ k p, (k, p) ∈ tx.keys → parent k ≠ .fail ∧ parent k ≠ .bad := by
+  have bi := binv_reach hid h
+  have hr := breach_reach h
+  have i2 := inv2_reach hr
+  obtain ⟨hnf, s', hw⟩ := hs
+  have hcond : b.f.workers = 0 ∧ b.f.tasksClosed = true ∧ b.f.err = none := by
+    unfold waitRet at hw; split at hw
+    next hcond =>
+      simp only [Option.some.injEq, Prod.mk.injEq] at hw
+      exact ⟨hcond.1, hcond.2, hw.2⟩
+    · cases hw
+  obtain ⟨hm, hf⟩ := bi.closed hcond.2.1
+  refine ⟨fun k hk => bi.metaVals hnf k (by rw [hm]; exact hk), ?_⟩
+  intro tx ht k p hp
+  have hdecl : Declared b.f k :=
+    (bi.decl k).2 ⟨tx, by rw [hf, List.take_length]; exact ht, (withoutPermissions_exact tx.keys k).2 ⟨p, hp⟩⟩
+  have hreq : k ∈ b.f.requested := (wait_ok_reads_exactly_declared hr hc hw k).1 hdecl
+  have hin : b.f.inflight = [] := by
+    have := i2.k3; rw [hcond.1] at this
+    exact List.eq_nil_of_length_eq_zero (by omega)
+  rcases invR_reach hr k hreq with h1 | ⟨d, h1⟩ | h1
+  · rw [hin] at h1; cases h1
+  · have := (inv_reach hr).vals k d h1
+    cases d <;> simp [this, rdOf]
+  · rw [hcond.2.2] at h1; cases h1
 
 /-! Non-vacuity: a concrete run with a duplicate tx id, overlapping keys and a failing read. -/
 def exParent : Key → Rd := fun k => if k = "a" then .val "1" else if k = "b" then .fail else .absent
@@ -577,5 +805,48 @@ example : Reach exParent 1 1000000 ex4 ∧ GetRes.vals 1 ∈ getOutcomes ex4 "t"
   have r3 : Reach exParent 1 1000000 ex3 := .step _ _ r2 (.take _ _ h3)
   have r4 : Reach exParent 1 1000000 ex4 := .step _ _ r3 (.complete _ "a" _ h4)
   exact ⟨r4, by decide⟩
+
+/-! Non-vacuity at block level: a block with one transaction executes to `Succeeded`. -/
+def bParent : Key → Rd := fun k => if k = "a" then .val "" else if k = "b" then .absent else .val "m"
+def bBlk : Block := { mkeys := ["h", "t", "f"], txs := [{ id := "x", keys := [("a", 1), ("b", 7)] }] }
+def bTx : BTx := { id := "x", keys := [("a", 1), ("b", 7)] }
+def bf1 : St := (fetch (init 1 4) "x" bTx.fetchKeys).1
+def bf2 : St := (send bf1).getD bf1
+def bf3 : St := (send bf2).getD bf2
+def bf4 : St := (take bf3).getD bf3
+def bf5 : St := (complete bParent bf4 "a").getD bf4
+def bf6 : St := (take bf5).getD bf5
+def bf7 : St := (complete bParent bf6 "b").getD bf6
+def bf8 : St := waitCall bf7
+def bf9 : St := (exit bf8).getD bf8
+
+theorem getD_some {α} (o : Option α) (d : α) (h : o.isSome) : o = some (o.getD d) := by
+  cases o <;> simp_all
+
+example : ∃ b, BReach bParent bBlk 1 4 b ∧ Succeeded b ∧
+    b.parentReads = ["h", "t", "f", "a", "b"] := by
+  have r0 : BReach bParent bBlk 1 4 (binit 1 4) := .init
+  have r1 := BReach.step _ _ r0 (.metaOk _ "h" "m" rfl rfl (by decide))
+  have r2 := BReach.step _ _ r1 (.metaOk _ "t" "m" rfl rfl (by decide))
+  have r3 := BReach.step _ _ r2 (.metaOk _ "f" "m" rfl rfl (by decide))
+  have r4 := BReach.step _ _ r3 (.fetchOk _ bTx rfl rfl rfl rfl rfl (by decide))
+  have r5 := BReach.step _ _ r4 (.inner _ bf2 (.send _ _ (getD_some _ _ (by decide))))
+  have r6 := BReach.step _ _ r5 (.inner _ bf3 (.send _ _ (getD_some _ _ (by decide))))
+  have r7 := BReach.step _ _ r6 (.inner _ bf4 (.take _ _ (getD_some _ _ (by decide))))
+  have r8 := BReach.step _ _ r7 (.inner _ bf5 (.complete _ "a" _ (getD_some _ _ (by decide))))
+  have r9 := BReach.step _ _ r8 (.inner _ bf6 (.take _ _ (getD_some _ _ (by decide))))
+  have r10 := BReach.step _ _ r9 (.inner _ bf7 (.complete _ "b" _ (getD_some _ _ (by decide))))
+  have r11 := BReach.step _ _ r10 (.waitCall _ rfl rfl rfl (by decide))
+  have r12 := BReach.step _ _ r11 (.inner _ bf9 (.exit _ _ (getD_some _ _ (by decide))))
+  have hw : (waitRet bf9).map (·.2) = some none := by decide
+  refine ⟨_, r12, ⟨rfl, ?_⟩, by decide⟩
+  show ∃ s', waitRet bf9 = some (s', none)
+  cases hq : waitRet bf9 with
+  | none => rw [hq] at hw; cases hw
+  | some p =>
+    obtain ⟨s', e⟩ := p
+    rw [hq] at hw
+    simp at hw
+    exact ⟨s', by rw [hw]⟩
 
 end HyperModel.Props.C24
